@@ -69,10 +69,15 @@ package util
 // WriteFileAt reports success only for a COMPLETE file: filename exists with exactly the bytes of data. crashok: whatever
 // is visible under `filename` at any moment (= if the process dies right there) is either absent/empty or complete.
 //@ pure func complete(k int, data []byte) bool := fexists[k] && fsize[k] == len(data) && forall i int :: 0 <= i && i < len(data) ==> fcontent[k][i] == data[i]
+// (the file in progress lives under <filename>.tmp - the name the chunk matchers of the outputs are proved to reject:
+// fluentdforward / datadog Config.MatchChunkID [never-a-temporary-name])
+//@ ghost scratch var lasttmpname string
 //@ func WriteFileAt(dir *os.File, filename string, data []byte, perm os.FileMode) error
 //@   property C04 C03
+//@   ghostset lasttmpname := tmpname
+//@   ensures[!file-in-progress-has-a-name-the-matchers-reject] len(lasttmpname) == len(filename) + 4 && lasttmpname[len(filename)] == 46 && lasttmpname[len(filename)+1] == 116 && lasttmpname[len(filename)+2] == 109 && lasttmpname[len(filename)+3] == 112
 //@   requires dir != nil
-//@   modifies fexists, fsize, fcontent, fdname
+//@   modifies fexists, fsize, fcontent, fdname, lasttmpname
 //@   ensures[success-means-complete] result == nil ==> complete(key(filename), data)
 //@   crashinv[never-a-partial-file-under-the-final-name] !fexists[key(filename)] || fsize[key(filename)] == 0 || complete(key(filename), data) || (old(fexists[key(filename)]) && fsize[key(filename)] == old(fsize[key(filename)]))
 
@@ -107,7 +112,7 @@ package util
 //@ pure func mkbytes(m []byte, pos [1099511627776]int, keys []string, n int) bool := forall i int :: 0 <= i && i < n ==> forall j int :: 0 <= j && j < len(keys[i]) ==> m[pos[i]+8+j] == keys[i][j]
 //@ pure func mergedof(m []byte, pos [1099511627776]int, keys []string, n int) bool := mkchain(m, pos, keys, n) && mklens(m, pos, keys, n) && mkbytes(m, pos, keys, n)
 //@ func AppendMergedKey(buf []byte, keys []string) []byte
-//@   property C06 C19
+//@   property C06 C19 C12
 //@   modifies buf[len(buf):cap(buf)], mkpos
 //@   ensures[each-key-length-prefixed] mkpos[0] == len(buf) && mkpos[len(keys)] == len(result) && mergedof(result, mkpos, keys, len(keys))
 //@   ensures[existing-bytes-kept] len(result) >= len(buf) && forall p int :: 0 <= p && p < len(buf) ==> result[p] == old(buf[p])
@@ -119,7 +124,7 @@ package util
 //@   loop 1: invariant forall p int :: 0 <= p && p < old(len(buf)) ==> buf[p] == old(buf[p])
 
 //@ func lemmaMergedKeyInjective(ma, mb []byte, a, b []string)
-//@   property C06 C19
+//@   property C06 C19 C12
 //@   requires len(a) == len(b) && len(ma) == len(mb) && forall p int :: 0 <= p && p < len(ma) ==> ma[p] == mb[p]
 //@   requires mkposA[0] == 0 && mkposB[0] == 0 && mergedof(ma, mkposA, a, len(a)) && mergedof(mb, mkposB, b, len(b))
 //@   modifies nothing
